@@ -25,6 +25,8 @@ var c06Shapes = map[string]string{
 	"mixed":   `[1, [3], "k" => 2]`,
 	// nested arrays that are empty when the copy is made
 	"emptynested": `[1, [], "k" => []]`,
+	// the same kind of value built by the JSON decoder (and by auto-vivification) instead of a literal
+	"jsonnested": `json_decode('{"a":1,"k":{"q":[5]},"m":[2,3]}', true)`,
 }
 
 const c06Prelude = `class Holder { public $p = []; public function items() { return $this->p; } }
@@ -78,7 +80,7 @@ type c06Step struct{ mut, side string }
 // c06InCallee: routes whose copy is a parameter, only observable inside the callee.
 func c06InCallee(route string) bool {
 	switch route {
-	case "param", "refparam", "variadic", "spread", "methodparam":
+	case "param", "refparam", "variadic", "spread", "methodparam", "closureuse":
 		return true
 	}
 	return false
@@ -96,6 +98,17 @@ func c06Script(shape, route string, steps []c06Step) string {
 		if b != "" {
 			fmt.Fprintf(&sb, "echo \"%d|B|\", json_encode(%s), \"\\n\";\n", k, b)
 		}
+	}
+	if route == "closureuse" {
+		fmt.Fprintf(&sb, "$a = %s;\n", lit)
+		obs(0, "$a", "")
+		sb.WriteString("$callee = function () use ($a) {\n  echo \"0|B|\", json_encode($a), \"\\n\";\n")
+		for k, st := range steps {
+			fmt.Fprintf(&sb, "  %s\n  echo \"%d|B|\", json_encode($a), \"\\n\";\n", c06Mut(st.mut, "$a", shape), k+1)
+		}
+		sb.WriteString("};\n$callee();\n")
+		obs(len(steps), "$a", "")
+		return sb.String()
 	}
 	if c06InCallee(route) {
 		// the copy lives in a callee: parameter declaration, the lvalue naming the copy, and the call
@@ -353,7 +366,7 @@ func C06(c *Ctx) *kf.Report {
 		perRoute[strings.SplitN(k, "/", 2)[0]]++
 	}
 	rep.Coverage["effective_mutation_kinds_per_route"] = perRoute
-	for _, r := range []string{"assign", "param", "return", "getter", "propstore", "propload", "elemstore", "elemload", "clone", "variadic", "spread", "arraypush", "ctorparam", "methodparam", "ref", "refparam", "handle"} {
+	for _, r := range []string{"assign", "param", "return", "getter", "propstore", "propload", "elemstore", "elemload", "clone", "variadic", "spread", "arraypush", "ctorparam", "methodparam", "closureuse", "ref", "refparam", "handle"} {
 		if perRoute[r] == 0 {
 			rep.Infraf("route %s: no effective mutation observed (vacuous)", r)
 		}
